@@ -786,8 +786,12 @@ func selfTest(e *ev.Evidence, cfs []Config, seed int64) string {
 		}
 		return Config{}, false
 	}
-	enc, ok1 := pick(func(c Config) bool { return c.Fn == "EncryptSymmetric" && c.Alg == "A128GCM" && c.Path == "ok" && c.Len == 17 && c.SV == 5 })
-	seal, ok2 := pick(func(c Config) bool { return c.Fn == "aescbcaead.Open" && c.Alg == "A128CBC-HS256" && c.Path == "ok" && c.Len == 17 && c.SV == 11 })
+	enc, ok1 := pick(func(c Config) bool {
+		return c.Fn == "EncryptSymmetric" && c.Alg == "A128GCM" && c.Path == "ok" && c.Len == 17 && c.SV == 5
+	})
+	seal, ok2 := pick(func(c Config) bool {
+		return c.Fn == "aescbcaead.Open" && c.Alg == "A128CBC-HS256" && c.Path == "ok" && c.Len == 17 && c.SV == 11
+	})
 	if !ok1 || !ok2 {
 		return "binding self-test: probe configurations missing"
 	}
@@ -799,7 +803,7 @@ func selfTest(e *ev.Evidence, cfs []Config, seed int64) string {
 	b.Start(line(enc, w)) // 1
 	w = oe
 	w.Outside = true
-	b.Start(line(enc, w)) // 2
+	b.Start(line(enc, w))   // 2
 	b.Start(line(seal, os)) // 3 as observed
 	w = os
 	w.Written = [][]string{{"dst", "spare"}}
